@@ -256,6 +256,9 @@ func (c *FnCtx) specApp(st *State, fn *ssa.Function, args []*Term) []*Term {
 
 // specCall: application of a recursive ghost function.
 func (c *FnCtx) specCall(st *State, fn *ssa.Function, args []*Term) []*Term {
+	savedTag := c.curTag
+	c.curTag = 2
+	defer func() { c.curTag = savedTag }()
 	ts := c.eng.ts
 	si := c.eng.specInfo(fn)
 	var uargs []*Term
@@ -290,13 +293,17 @@ func (c *FnCtx) specCall(st *State, fn *ssa.Function, args []*Term) []*Term {
 			c.specSeen[ck] = true
 			c.eng.usedSpecContracts[fn] = true
 			// the function's contract (verified separately, by induction) holds for this application
+			// the lemma instance is asserted on every path, so it must be evaluated under a neutral path condition
+			// (evaluating it under the current one yields "pc and clause", which is NOT valid on the other paths)
+			work := st.clone()
+			work.pc = ts.Bool(true)
 			pre := []*Term{}
 			for _, rq := range gfc.Requires {
-				pre = append(pre, c.evalGhost(st, c.eng.ld.GhostFunc(rq.Fn), args))
+				pre = append(pre, c.evalGhost(work, c.eng.ld.GhostFunc(rq.Fn), args))
 			}
 			pargs := append(append([]*Term{}, args...), out...)
 			for _, en := range gfc.Ensures {
-				r := c.evalGhost(st, c.eng.ld.GhostFunc(en.Fn), pargs)
+				r := c.evalGhost(work, c.eng.ld.GhostFunc(en.Fn), pargs)
 				c.addFactT(&State{pc: ts.Bool(true)}, out[0], ts.Implies(ts.And(pre...), r))
 			}
 		}
